@@ -40,7 +40,7 @@ from odml.tools.odmlparser import ODMLReader, ODMLWriter
 from odml.tools.converters import VersionConverter as VerConf
 
 
-def run_rdf_export(odml_file, export_dir, source_format="XML"):
+def run_rdf_export(odml_file, export_dir, source_format="XML", out_name=None):
     """
     Convert an odML file to an XML RDF file and
     export it to an export directory with the
@@ -50,8 +50,11 @@ def run_rdf_export(odml_file, export_dir, source_format="XML"):
     :param export_dir:
     :param source_format: File format of the odML file.
                           XML, JSON and YAML are supported, default is XML.
+    :param out_name: Name of the RDF file without the file ending. Default is
+                     the name of the odML file without its file ending.
     """
-    out_name = os.path.splitext(os.path.basename(odml_file))[0]
+    if out_name is None:
+        out_name = os.path.splitext(os.path.basename(odml_file))[0]
     out_file = os.path.join(export_dir, "%s.rdf" % out_name)
     doc = ODMLReader(source_format).from_file(odml_file)
     ODMLWriter("RDF").write_file(doc, out_file)
@@ -89,7 +92,11 @@ def run_conversion(file_list, output_dir, rdf_dir, report, source_format="XML"):
                 VerConf(file_path).write_to_file(outfile, source_format)
                 try:
                     report.write("[Info] RDF conversion of '%s'\n" % outfile)
-                    run_rdf_export(outfile, rdf_dir)
+                    # Name the RDF file after the original file, not after the
+                    # intermediate '<name>_conv.xml': the latter would overwrite,
+                    # or be overwritten by, the export of a file '<name>_conv.*'
+                    # that is found in the same run.
+                    run_rdf_export(outfile, rdf_dir, out_name=out_name)
                 except Exception as exc:
                     report.write("[Error] converting '%s' to RDF: '%s'\n" %
                                  (file_path, exc))
